@@ -1,7 +1,11 @@
-"""C13 — numeric literals (partial): based integer literals under Kani, bounded in digit count."""
+"""C13 — numeric literals (partial).  The literal evaluators of src/interpreter/src/literals.rs are put under
+Verus contracts (units/vC13.py) against ASSUMED contracts of the std / num_rational functions they delegate to.
+The earlier Kani harnesses on binary/oct/dec/hex (contracts/C13/kani_literals.rs) are kept for the thorough tier only:
+`from_str_radix` over a String collected from symbolic chars exhausts CBMC (45 GB), they rarely reach a verdict."""
 import os, re
 import vlib
 from vlib import GEN, VERIF
+from units import vC13
 
 
 def harness_modules():
@@ -12,15 +16,21 @@ def plan(plan, tier, seed):
     with open(os.path.join(VERIF, "contracts", "C13", "kani_literals.rs")) as f:
         text = f.read()
     plan.harness_files[os.path.join(GEN, "C13", "kani_literals.rs")] = text
-    hmap = {}
-    for m in re.finditer(r"pub\(crate\) fn (vkc13_\w+)\(\)", text):
-        h = m.group(1)
-        hmap[h] = plan.ob("C13." + h[len("vkc13_"):].replace("literal_", "literal."), "kani", "bounded", bound="1..3 digits, any case",
-                          functions=["interpreter/src/literals.rs: binary/oct/dec/hex"],
-                          what="the literal evaluates to I64(sum of digit * radix^position)")
-    plan.kani.append(dict(package="mech-interpreter", filters=["vkc13_"], harness=hmap, timeout=3000, replay_entry="vkreplay_c13"))
-    plan.functions += ["src/interpreter/src/literals.rs: binary, oct, dec, hex"]
-    plan.trusted += ["Kani / CBMC", "std i64::from_str_radix is executed, not modelled"]
-    plan.assumptions += ["digit count bounded to 3", "float / scientific spellings delegate to str::parse::<f64> and powf: nearest-value is std's contract (assumed) resp. undecidable here (Kani over-approximates powf, Verus has no floats)"]
-    plan.undecided_clauses += ["C13: floating-point, scientific, rational, complex, negated and suffixed literals; which spellings the grammar accepts (parser)"]
-    plan.level = "model_checking"
+    if tier == "thorough":
+        hmap = {}
+        for m in re.finditer(r"pub\(crate\) fn (vkc13_\w+)\(\)", text):
+            h = m.group(1)
+            hmap[h] = plan.ob("C13." + h[len("vkc13_"):].replace("literal_", "literal."), "kani", "bounded", bound="1..3 digits, any case",
+                              functions=["interpreter/src/literals.rs: binary/oct/dec/hex"],
+                              what="the literal evaluates to I64(sum of digit * radix^position) — real std from_str_radix executed")
+        plan.kani.append(dict(package="mech-interpreter", filters=["vkc13_"], harness=hmap, timeout=1500, replay_entry="vkreplay_c13"))
+        plan.trusted += ["Kani / CBMC (thorough-tier twins; std i64::from_str_radix executed, not modelled)"]
+    try:
+        vC13.plan_units(plan)
+    except vlib.AnchorLost as e:
+        plan.anchor_errors.append(("C13.verus.*", str(e)))
+    plan.undecided_clauses += [
+        "C13: which spellings the grammar accepts and how the parser splits them into tokens (e.g. `1e23` reads as `1` with kind `e23`, `_` inside based literals) — parser code, out of reach",
+        "C13: suffixed / annotated literals that do not fit their kind (typed_literal = integer() followed by the C12 conversion; `-128<i8>` negates after clamping)",
+        "C13: that std's parsers and num_rational meet their documented contracts (assumed)"]
+    plan.level = "proof"
